@@ -136,6 +136,11 @@ def optint(x, y: int = None):
     return "%s|%s" % (_r(x), _r(y))
 
 
+def optfb(x, f: float = None, b: bool = None):
+    _log("optfb")
+    return "%s|%s|%s" % (_r(x), _r(f), _r(b))
+
+
 def unann(x, y=3):
     _log("unann")
     return "%s|%s|%s" % (_r(x), _r(y), type(y).__name__)
@@ -315,7 +320,7 @@ def after3(x):
 
 
 FIRST = [one, lit, num, flt, mk, firstcat]
-DATA = [add, mulf, flagged, pair, none_default, optint, unann, cat, ident, withctx, sub, nocache, ctxmut, boom, needs,
+DATA = [add, mulf, flagged, pair, none_default, optint, optfb, unann, cat, ident, withctx, sub, nocache, ctxmut, boom, needs,
         push, setkey, dfcol, deepmut, after1, after2, after3]
 STATE = [getvar, tag, mutvar]
 ATTRS = {"attr_up": dict(ABC="abc"), "attr_low": dict(abc="x"), "vol": dict(volatile=True)}
